@@ -77,6 +77,10 @@ def build(tier):
     for (tt, pol) in combos:
         u = unit_for(tt, pol); units.append(u)
         for (op, n) in OPS:
+            if op in ("mul", "div") and u.defs["T_W"] > 8:
+                # products / quotients of 16-bit and wider bounds (spec arithmetic at twice the width) do not finish within
+                # 30 minutes per sign case on any installed back end: not covered at these widths (stated in the level note)
+                continue
             if op in ("mul", "div"):
                 # the enclosure of products / quotients is a non-linear fact: split by the sign configuration of
                 # the operands (the nine cases are exhaustive) so that each SAT query stays small; run in parallel
